@@ -1,15 +1,17 @@
 //! C16 — option precedence (CLI over file over default) and "accepted configurations can run".
 //!
 //! (i)  `cfgb build …` lines: the full product protocol × strategy × port direction × family ×
-//!      privilege × first_ttl × max_ttl × initial_sequence through the real `trippy_core::Builder`;
+//!      privilege × source address (none / IPv4 / IPv6) × first_ttl × max_ttl × initial_sequence
+//!      through the real `trippy_core::Builder`;
 //!      the Lean model (`TV.Builder.build`) answers the same lines.  Every accepted configuration is
 //!      then RUN for three rounds (once against a silent network, once against a network that
 //!      answers every probe) through the real `Strategy` under the virtual clock; a panic is an
 //!      oracle failure `c16-accepted-config-panics`.
 //!      `cfgb cli …` lines: the strategy-relevant validators of the real
 //!      `TrippyConfig::build_config` against the Lean model `TV.Builder.cliConfig`.
-//!      A source address of the other address family than the target: what the builder says and
-//!      what `Channel::connect` does (over a do-nothing `Socket`; no real sockets).
+//!      A source address of the other address family than the target must be rejected by the
+//!      builder (`c16-source-family-accepted` otherwise; `Channel::connect` — tried over a
+//!      do-nothing `Socket`, no real sockets — runs into `unreachable!()` for such a pair).
 //! (ii) precedence: every layered option absent / in the file only / on the command line only /
 //!      both, pairwise with a second option, through the real `build_config`
 //!      (`verif_build_config`); the effective value must be CLI > file > default (oracle only).
@@ -204,10 +206,12 @@ fn builder_product(run: &mut Run) {
             for pd in pds {
                 for v6 in [false, true] {
                     for privileged in [true, false] {
-                        for first in [0u8, 1, 2, 254, 255] {
-                            for max in [0u8, 1, 254, 255] {
-                                for initial in [0u16, 33434, 64511, 64512, 65535] {
-                                    builder_case(run, proto, strat, pd, v6, privileged, first, max, initial);
+                        for src in [None, Some(false), Some(true)] {
+                            for first in [0u8, 1, 2, 254, 255] {
+                                for max in [0u8, 1, 254, 255] {
+                                    for initial in [0u16, 33434, 64511, 64512, 65535] {
+                                        builder_case(run, proto, strat, pd, v6, privileged, src, first, max, initial);
+                                    }
                                 }
                             }
                         }
@@ -221,14 +225,17 @@ fn builder_product(run: &mut Run) {
 #[allow(clippy::too_many_arguments)]
 fn builder_case(
     run: &mut Run, proto: Protocol, strat: MultipathStrategy, pd: PortDirection, v6: bool, privileged: bool,
-    first: u8, max: u8, initial: u16,
+    src: Option<bool>, first: u8, max: u8, initial: u16,
 ) {
     let op = format!(
-        "cfgb build {} {} {} {first} {max} {initial} {} {}",
-        proto_token(proto), strat_token(strat), pd_token(pd), u8::from(v6), u8::from(privileged)
+        "cfgb build {} {} {} {first} {max} {initial} {} {} {}",
+        proto_token(proto), strat_token(strat), pd_token(pd), u8::from(v6), u8::from(privileged),
+        match src { None => "-", Some(false) => "4", Some(true) => "6" }
     );
+    let source_addr = src.map(|s6| if s6 { IpAddr::V6(Ipv6Addr::LOCALHOST) } else { IpAddr::V4(Ipv4Addr::LOCALHOST) });
     let built = guarded(|| {
         Builder::new(target(v6))
+            .source_addr(source_addr)
             .protocol(proto)
             .multipath_strategy(strat)
             .port_direction(pd)
@@ -257,6 +264,9 @@ fn builder_case(
         }
         Ok(Ok(tracer)) => {
             run.count("build:ok");
+            if src.is_some_and(|s6| s6 != v6) {
+                run.fail("c16-source-family-accepted", op.clone());
+            }
             let cfg = tracer.verif_strategy_config();
             for answer in [false, true] {
                 match run_rounds(cfg, answer, 3) {
@@ -276,26 +286,35 @@ fn builder_case(
     }
 }
 
-/// a source address of the other family than the target
+/// a source address of the other family than the target: the builder must reject it with a
+/// configuration error (if it does not, what `Channel::connect` does with it is recorded too)
 fn source_family(run: &mut Run) {
     for proto in [Protocol::Icmp, Protocol::Udp, Protocol::Tcp] {
         for target_v6 in [false, true] {
-            let src = if target_v6 { IpAddr::V4(Ipv4Addr::LOCALHOST) } else { IpAddr::V6(Ipv6Addr::LOCALHOST) };
-            let pd = if proto == Protocol::Icmp { PortDirection::None } else { PortDirection::new_fixed_dest(80) };
-            let desc = format!("protocol={proto:?} target={} source_addr={src}", target(target_v6));
-            let built = Builder::new(target(target_v6)).source_addr(Some(src)).protocol(proto).port_direction(pd).build();
-            match built {
-                Err(_) => run.count("srcfam:builder-rejects"),
-                Ok(tracer) => {
-                    run.count("srcfam:builder-accepts");
-                    let cc = tracer.verif_channel_config(src);
-                    match guarded(|| Channel::<NullSock>::connect(&cc).map(|_| ())) {
-                        Err(p) => {
-                            run.count("srcfam:connect-panics");
-                            run.fail("c16-source-family-panic", format!("{desc} Channel::connect panics ({p})"));
+            for mismatch in [true, false] {
+                let src_v6 = target_v6 != mismatch;
+                let src = if src_v6 { IpAddr::V6(Ipv6Addr::LOCALHOST) } else { IpAddr::V4(Ipv4Addr::LOCALHOST) };
+                let pd = if proto == Protocol::Icmp { PortDirection::None } else { PortDirection::new_fixed_dest(80) };
+                let desc = format!("protocol={proto:?} target={} source_addr={src}", target(target_v6));
+                let built = Builder::new(target(target_v6)).source_addr(Some(src)).protocol(proto).port_direction(pd).build();
+                match (built, mismatch) {
+                    (Err(Error::BadConfig(_)), true) => run.count("srcfam:mismatch-rejected"),
+                    (Err(e), _) => run.fail("c16-source-family-error", format!("{desc} ({e})")),
+                    (Ok(tracer), _) => {
+                        if mismatch {
+                            run.fail("c16-source-family-accepted", format!("{desc} accepted by Builder::build"));
+                        } else {
+                            run.count("srcfam:same-family-accepted");
                         }
-                        Ok(Err(_)) => run.count("srcfam:connect-error"),
-                        Ok(Ok(())) => run.count("srcfam:connect-ok"),
+                        let cc = tracer.verif_channel_config(src);
+                        match guarded(|| Channel::<NullSock>::connect(&cc).map(|_| ())) {
+                            Err(p) => {
+                                run.count("srcfam:connect-panics");
+                                run.fail("c16-source-family-panic", format!("{desc} Channel::connect panics ({p})"));
+                            }
+                            Ok(Err(_)) => run.count("srcfam:connect-error"),
+                            Ok(Ok(())) => run.count("srcfam:connect-ok"),
+                        }
                     }
                 }
             }
